@@ -300,6 +300,10 @@ spec fn capture_frame(a: Compiler, b: Compiler) -> bool {
 
 // The real enum is #[repr(u8)] and cast with `as u8`; only injectivity matters to the encoder contracts.
 pub uninterp spec fn opcode_byte(op: OpCode) -> u8;
+// OpCode::arg_sizes() == &[1] (chunk.rs): the opcodes whose single operand is one byte
+pub uninterp spec fn byte_operand(op: OpCode) -> bool;
+#[verifier::external_body]
+fn function_kind_is_initialiser(k: &FunctionKind) -> (r: bool) ensures r == (*k is Initialiser) { unimplemented!() }
 #[verifier::external_body]
 fn opcode_u8(op: OpCode) -> (r: u8) ensures r == opcode_byte(op) { op as u8 }
 
@@ -821,6 +825,46 @@ impl Parser {
     //@  before_stmt "self.patch_jump(exit_jump)" proof { assert(breaks_ok(self.cur())); }
     //@  before_stmt "match self.compiler_mut().pop_loop()" proof { assert(breaks_ok(self.cur())); }
     //@  after_stmt "self.block()" proof { lemma_drop_count_le(self.cur().locals@, (self.cur().scope_depth - 1) as usize); }
+    //@end
+    // ---------------------------------------------------------------- variable access: the operand names what resolution found
+    //@fn file=yarel/src/compiler.rs path=Parser::resolve_variable ret=r props=C04,C06
+    //@  subst "self.resolve_local(&name)" => "self.resolve_local(name)"
+    //@  subst "self.resolve_upvalue(&name)" => "self.resolve_upvalue(name)"
+    //@  subst "self.identifier_constant(&name)" => "self.identifier_constant(name)"
+    //@  requires old(self).pwf()
+    //@  ensures final(self).pwf(), final(self).compilers.len() == old(self).compilers.len(), old(self).has_error() ==> final(self).has_error()
+    //@  ensures final(self).code() == old(self).code()
+    //@  ensures (r.0 is GetLocal) ==> (r.1 is SetLocal) && old(self).cur().is_last_match(r.2 as int, name.source@) && old(self).cur().locals[r.2 as int].depth.is_some()
+    //@  ensures (r.0 is GetUpvalue) ==> (r.1 is SetUpvalue) && captured_somewhere(old(self).compilers@, final(self).compilers@, r.2 as int, name.source@) && (old(self).cur().no_match(name.source@) || final(self).has_error())
+    //@  ensures (r.0 is GetGlobal) ==> (r.1 is SetGlobal) && (final(self).has_error() || (old(self).cur().no_match(name.source@) && forall|k: int| 0 <= k < old(self).compilers.len() - 1 ==> !resolvable(#[trigger] old(self).compilers@[k], name.source@)))
+    //@  ensures (r.0 is GetLocal) || (r.0 is GetUpvalue) || (r.0 is GetGlobal)
+    //@end
+
+    // one-byte operands (locals, captures) versus two-byte constant operands: chunk.rs OpCode::arg_sizes
+    #[verifier::external_body]
+    fn verif_has_byte_operand(opcode: &OpCode) -> (r: bool) ensures r == byte_operand(*opcode) { unimplemented!() }
+
+    //@fn file=yarel/src/compiler.rs path=Parser::emit_variable_op props=C04,C06
+    //@  subst "opcode.arg_sizes() == &[1]" => "Parser::verif_has_byte_operand(&opcode)"
+    //@  subst "opcode as u8" => "opcode_u8(opcode)"
+    //@  requires old(self).pwf(), byte_operand(opcode) ==> variable < 256
+    //@  ensures final(self).pwf(), old(self).same_but_code(final(self))
+    //@  ensures byte_operand(opcode) ==> final(self).code() == old(self).code().push(opcode_byte(opcode)).push(variable as u8)
+    //@  ensures !byte_operand(opcode) ==> final(self).code().len() == old(self).code().len() + 3 && final(self).code().subrange(0, old(self).code().len() as int) == old(self).code() && final(self).code()[old(self).code().len() as int] == opcode_byte(opcode) && u16_of(final(self).code()[old(self).code().len() as int + 1], final(self).code()[old(self).code().len() as int + 2]) == variable
+    //@end
+
+    //@fn file=yarel/src/compiler.rs path=Parser::emit_return props=C04
+    //@  subst "OpCode::GetLocal as u8" => "opcode_u8(OpCode::GetLocal)"
+    //@  subst "OpCode::Nil as u8" => "opcode_u8(OpCode::Nil)"
+    //@  subst "OpCode::JumpFinally as u8" => "opcode_u8(OpCode::JumpFinally)"
+    //@  subst "OpCode::Return as u8" => "opcode_u8(OpCode::Return)"
+    //@  subst "self.compiler().kind == FunctionKind::Initialiser" => "function_kind_is_initialiser(&self.compiler().kind)"
+    //@  requires old(self).pwf()
+    //@  ensures final(self).pwf(), old(self).same_but_code(final(self))
+    //@  ensures final(self).code().len() >= old(self).code().len() + 2 && final(self).code().subrange(0, old(self).code().len() as int) == old(self).code()
+    //@  ensures final(self).code().last() == opcode_byte(OpCode::Return)
+    //@  ensures (old(self).cur().kind is Initialiser) ==> final(self).code()[old(self).code().len() as int] == opcode_byte(OpCode::GetLocal) && final(self).code()[old(self).code().len() as int + 1] == 0
+    //@  ensures !(old(self).cur().kind is Initialiser) ==> final(self).code()[old(self).code().len() as int] == opcode_byte(OpCode::Nil)
     //@end
 }
 
